@@ -50,6 +50,11 @@ func (t *Track) Add(deltaticks uint32, msgs ...[]byte) {
 		return
 	}
 	for _, msg := range msgs {
+		// every meta message of the end of track type ends the track for a reader, also when it was built
+		// with data (MetaUndefined(0x2F, data)): the track gets its end of track in the canonical form
+		if Message(msg).Is(MetaEndOfTrackMsg) {
+			msg = append(Message(nil), EOT...)
+		}
 		ev := Event{Delta: deltaticks, Message: msg}
 		*t = append(*t, ev)
 		deltaticks = 0
